@@ -4,6 +4,7 @@ package main
 
 import (
 	"fmt"
+	"go/ast"
 	"os"
 	"go/constant"
 	"go/token"
@@ -300,7 +301,31 @@ func (f *Frame) execInstr(ns *nodeState, ins ssa.Instruction) {
 	case *ssa.DebugRef:
 		if obj := x.Object(); obj != nil {
 			if _, isVar := obj.(*types.Var); isVar {
-				val := f.operand(ns.env, x.X)
+				src := x.X
+				if c, isConst := x.X.(*ssa.Const); isConst && !x.IsAddr {
+					// x/tools v0.29 gives the DebugRef of `v := e` the value v had before (zero); the value of e is
+					// found through the DebugRef that GlobalDebug emits for the expression e itself
+					if os.Getenv("GVC_DEBUG") != "" {
+						fmt.Fprintf(os.Stderr, "DebugRef def? %s const=%v rhs=%v\n", obj.Name(), c, f.defRHS(x.Expr) != nil)
+					}
+					if rhs := f.defRHS(x.Expr); rhs != nil {
+						if v := f.exprValue(ins.Block(), rhs); v != nil {
+							src = v
+						}
+					}
+					_ = c
+				}
+				val := f.operand(ns.env, src)
+				if src != x.X {
+					x2 := src
+					if f.isTop {
+						if vw, ok := ex.views[obj.Name()]; ok {
+							f.viewEvent(ns, obj.Name(), vw, x2, val)
+						}
+					}
+					ns.names[obj.Name()] = val
+					break
+				}
 				if f.isTop && !x.IsAddr {
 					if vw, ok := ex.views[obj.Name()]; ok {
 						if os.Getenv("GVC_DEBUG") != "" {
@@ -505,6 +530,50 @@ func (f *Frame) execInstr(ns *nodeState, ins ssa.Instruction) {
 	default:
 		ex.fail("instruction %T (%s) in %s", ins, ins, f.fn.Name())
 	}
+}
+
+// defRHS: for the identifier on the left of `id := e` / `var id = e`, the expression e.
+func (f *Frame) defRHS(id ast.Expr) ast.Expr {
+	if f.defs == nil {
+		f.defs = map[ast.Expr]ast.Expr{}
+		if syn := f.fn.Syntax(); syn != nil {
+			ast.Inspect(syn, func(n ast.Node) bool {
+				switch s := n.(type) {
+				case *ast.AssignStmt:
+					if s.Tok == token.DEFINE && len(s.Lhs) == len(s.Rhs) {
+						for i := range s.Lhs {
+							f.defs[s.Lhs[i]] = s.Rhs[i]
+						}
+					}
+				case *ast.ValueSpec:
+					if len(s.Names) == len(s.Values) {
+						for i := range s.Names {
+							f.defs[s.Names[i]] = s.Values[i]
+						}
+					}
+				}
+				return true
+			})
+		}
+	}
+	return f.defs[id]
+}
+
+// exprValue: the SSA value recorded (by a DebugRef) for an expression node, searched in the block.
+func (f *Frame) exprValue(b *ssa.BasicBlock, e ast.Expr) ssa.Value {
+	for {
+		if p, ok := e.(*ast.ParenExpr); ok {
+			e = p.X
+			continue
+		}
+		break
+	}
+	for _, ins := range b.Instrs {
+		if d, ok := ins.(*ssa.DebugRef); ok && d.Expr == e && !d.IsAddr {
+			return d.X
+		}
+	}
+	return nil
 }
 
 // viewEvent maintains the ghost set/pos arrays of a viewed slice variable at a DebugRef (definition or use).
